@@ -171,7 +171,7 @@ theorem ax0 (hx : 3 ≤ Lx) (hy : 4 ≤ Ly) (hz : 5 ≤ Lz) (x y z : Int) :
     (TS Lx Ly Lz 0 x y z ∨ P0 Lx Ly Lz x y z) ↔ B0 Lx Ly Lz x y z :=
   ⟨fun h => h.elim (ax0_mp hx hy hz x y z) (ax0_abs hx hy hz x y z), ax0_mpr hx hy hz x y z⟩
 
-theorem ax0_disj (hx : 3 ≤ Lx) (hy : 4 ≤ Ly) (hz : 5 ≤ Lz) (x y z : Int)
+theorem ax0_disj (hx : 3 ≤ Lx) (hy : 4 ≤ Ly) (hz : 4 ≤ Lz) (x y z : Int)
     (ht : TS Lx Ly Lz 0 x y z) (hp : P0 Lx Ly Lz x y z) : False := by
   obtain ⟨_, hv, hpt, _⟩ := ht
   unfold PT at hpt
